@@ -124,9 +124,15 @@ def run(ctx: Ctx):
     # ---- R17.b grammar ---------------------------------------------------------------------------
     ctx.rule("R17.b", "grammar: white space is ignored; a comment is one terminal from # to the end of the line (may be empty, cannot span lines); comment lines and blank lines are accepted inside a component-tagged block without ending it", floor=5)
     ctx.check("WS" in G.ignore, "R17.b", "src/gotranx/ode.lark::%ignore WS", "%ignore WS", "ode.lark no longer ignores white space (indentation, blank lines, line continuation would become significant)", "src/gotranx/ode.lark")
-    crule = G.rule("comment")
-    terms = [t for t in G.rule_refs("comment")]
-    lits = G.rule_literals("comment")
+    # the comment rule is found by what it matches (a terminal that starts with `#`), not by its name
+    hash_terms = {t for t, d in G.terms.items() if re.search(r"/\s*#|\"#\"", " " + d["shape"])}
+    cnames = [r for r in G.rules if set(G.rule_refs(r)) & hash_terms and not (set(G.rule_refs(r)) - hash_terms - {"NEWLINE"})]
+    cname = "comment" if "comment" in G.rules else (cnames[0] if cnames else None)
+    if cname is None:
+        ctx.broken("ode.lark: no rule that matches a `#` comment found (anchor vanished)")
+    crule = G.rule(cname)
+    terms = [t for t in G.rule_refs(cname)]
+    lits = G.rule_literals(cname)
     shapes = [G.terms[t]["shape"] for t in terms if t in G.terms]
     regexes = re.findall(r"/((?:[^/\\]|\\.)*)/", crule["shape"]) + [m for s in shapes for m in re.findall(r"/((?:[^/\\]|\\.)*)/", s)]
     ok_c = bool(regexes) and all(rx in (r"#[^\n]*", r"#[^\n\r]*", r"#[^\r\n]*") for rx in regexes) and not lits
@@ -135,7 +141,7 @@ def run(ctx: Ctx):
         "R17.b",
         "src/gotranx/ode.lark::comment::terminal",
         "COMMENT: /#[^\\n]*/",
-        f"the comment rule is `{G.shape('comment')}` with regexps {regexes}: a `#` token followed by a separate text token lets the ignored white space (including the line break) slip in between, so an empty comment swallows the next line; the text part must not be able to match a line break",
+        f"the comment rule is `{G.shape(cname)}` with regexps {regexes}: a `#` token followed by a separate text token lets the ignored white space (including the line break) slip in between, so an empty comment swallows the next line; the text part must not be able to match a line break",
         "src/gotranx/ode.lark",
     )
     exp = G.rule("expressions")
@@ -145,7 +151,7 @@ def run(ctx: Ctx):
     for a in tagged:
         txt = G.render(a)
         body = txt[txt.rfind('")"') + 3:].strip()
-        okb = all(x in body for x in ("assignment", "comment", "NEWLINE")) and body.endswith(")+")
+        okb = all(x in body for x in ("assignment", cname, "NEWLINE")) and body.endswith(")+")
         ctx.check(okb, "R17.b", f"src/gotranx/ode.lark::expressions::{txt.split()[0]}::block-items", f"block items: {body}", f"inside a `{txt.split()[0].strip(chr(34))}(...)` block only `{body}` is accepted: a comment line or a blank line between two assignments ends the block and the remaining assignments silently move to the unnamed component (or the model no longer loads)", "src/gotranx/ode.lark")
     from sa import av as _avt
 
@@ -170,7 +176,7 @@ def run(ctx: Ctx):
         ok2 = any(isinstance(n, ast.If) and re.fullmatch(r"isinstance\(\w+, atoms\.Comment\)", norm(n.test)) and any(isinstance(s_, ast.Continue) for s_ in n.body) for n in ast.walk(to.node))
         ctx.check(ok and ok2, "R17.b", key, "comments inside a block are passed on, not treated as atoms", f"the transformer does not pass Comment items of an expressions block on unchanged ({_avt.show(tv)[:120]}): they would be treated as assignments", tex.where())
     asg = G.shape("assignment")
-    ctx.check(asg.replace(" ", "") == '?assignment:VARIABLE"="expression[comment][NEWLINE]', "R17.b", "src/gotranx/ode.lark::assignment", asg, f"assignment rule is `{asg}`", "src/gotranx/ode.lark")
+    ctx.check(asg.replace(" ", "") == '?assignment:VARIABLE"="expression[' + cname + '][NEWLINE]', "R17.b", "src/gotranx/ode.lark::assignment", asg, f"assignment rule is `{asg}`", "src/gotranx/ode.lark")
 
     # ---- R17.c who may read annotations ----------------------------------------------------------------
     check_raw_text(ctx, "R17.b")
